@@ -175,6 +175,10 @@ class PathVal(SVal):
         return TPath()
 
     def meth_unlink(self, cx, missing_ok=False):
+        log = cx.ghost.get("unlink_log")
+        if log is not None:  # a spec that collects the unlinked paths in a ghost set (loops): see record.DeleteFiles
+            log.py_call_method(cx, "add", [self], {})
+            return None
         cx.effect("unlink", self.t)
 
     def py_hash(self, cx):
